@@ -135,6 +135,9 @@ def run(ck):
             elif kind == "const":
                 v = cur[r.below(len(cur))]
                 v2 = Voice(v.k, v.c + r.range(1, 3), v.born, v.nest); v2.hist = v.hist + [(t, v2.c)]; v2.id = v.id
+                for attr in ("replaced", "unknown"):       # still the same call site
+                    if hasattr(v, attr):
+                        setattr(v2, attr, getattr(v, attr))
                 cur[cur.index(v)] = v2
             elif kind == "nest":
                 v = cur[r.below(len(cur))]
